@@ -266,7 +266,9 @@ func (gb *gcpBalancer) initializeConfig(cfg *GCPBalancerConfig) {
 
 func (gb *gcpBalancer) enforceMinSize() {
 	for len(gb.scRefs) < int(gb.cfg.GetChannelPool().GetMinSize()) {
-		gb.addSubConn()
+		if !gb.addSubConn() {
+			return
+		}
 	}
 }
 
@@ -287,7 +289,9 @@ func (gb *gcpBalancer) UpdateClientConnState(ccs balancer.ClientConnState) error
 	}
 
 	if len(gb.scRefs) == 0 {
-		gb.newSubConn()
+		// (Re)create the pool, e.g. when previous attempts failed because of an empty address list.
+		// The lock is already held, so newSubConn() cannot be used here.
+		gb.enforceMinSize()
 		return nil
 	}
 
@@ -329,15 +333,15 @@ func (gb *gcpBalancer) newSubConn() {
 }
 
 // addSubConn creates a new SubConn using cc.NewSubConn and initialize the subConnRef.
-// Must be called holding the mutex lock.
-func (gb *gcpBalancer) addSubConn() {
+// Must be called holding the mutex lock. Returns false if the SubConn was not created.
+func (gb *gcpBalancer) addSubConn() bool {
 	sc, err := gb.cc.NewSubConn(
 		gb.addrs,
 		balancer.NewSubConnOptions{HealthCheckEnabled: healthCheckEnabled},
 	)
 	if err != nil {
 		gb.log.Errorf("failed to NewSubConn: %v", err)
-		return
+		return false
 	}
 	gb.scRefs[sc] = &subConnRef{
 		subConn:     sc,
@@ -347,6 +351,7 @@ func (gb *gcpBalancer) addSubConn() {
 	gb.scStates[sc] = connectivity.Idle
 	gb.scRefList = append(gb.scRefList, gb.scRefs[sc])
 	sc.Connect()
+	return true
 }
 
 // getReadySubConnRef returns a subConnRef and a bool. The bool indicates whether
